@@ -700,10 +700,15 @@ def classify_c07(intact, got, exhausted, tail=b'\n'):
     return None
 
 
+LOOKALIKE_PREFIXES = [b'\xef\xbb\xbf', b'\xff\xfe', b'\xfe\xff', b'\xff\xfe\x00\x00', b'\x00\x00\xfe\xff', b' ', b'\t', b'\r',
+                      b'\x00', b'\x0c', b'\x0b', b'\xa0', b'\xc2\xa0', b'\xe2\x80\x8b', b'\x1b', b'\x7f', b'>', b'+', b'-', b'\\', b'##']
+
+
 class Truncate(Family):
     name = 'truncate'
     rule = ('well-formed files x every truncation point 0..len, and every content section length perturbed by '
-            '+-1..3, 0, -1, abc, 1_0, 2^70; non-trivial = the cut falls strictly inside the file / the perturbed '
+            '+-1..3, 0, -1, abc, 1_0, 2^70; content lines that are a header behind a non-grammar prefix, intact and with the '
+            'length shortened to end right before them; non-trivial = the cut falls strictly inside the file / the perturbed '
             'length differs from the true one; distinct by resulting bytes')
 
     def cases(self, tier, rng, prop_id):
@@ -740,6 +745,24 @@ class Truncate(Family):
                         dict(id='...meta', opts=[['length', '3']], blank=[], content=b'{}\n'.hex(), expect=dict(metadata={}), enc='utf-8', ast=None)])
                     for k in range(len(gf.render(sf)) + 1):
                         yield dict(kind='cut', file=sf, cut=k)
+            # content with a line that is a valid next header behind a prefix the grammar does not allow (byte order marks
+            # of every Unicode codec, white space, NUL, ...): the intact file reads as written, and the same file with the
+            # declared length SHORTENED so that the content ends right before that line has a non-header line in header
+            # position (rejected, nothing more yielded)
+            if i == 0:
+                for pre in LOOKALIKE_PREFIXES:
+                    for hdr in (b'#.change:', b'#.meta: format=json, length=3', b'#.preamble: length=2', b'#diffx: version=1.0'):
+                        first = b'Summary line\n'
+                        body = first + pre + hdr + b'\n{}\nx\n#..file:\n#...meta: length=3\n{}\n'
+                        lf = dict(crlf=False, trailing=[], sections=[
+                            dict(id='diffx', opts=[['version', '1.0'], ['encoding', 'latin-1']], blank=[], content=None, expect={}, enc=None, ast=None),
+                            dict(id='.preamble', opts=[['length', str(len(body))], ['indent', '0']], blank=[], content=body.hex(),
+                                 expect=dict(text=body.decode('latin-1')), enc='latin-1', ast=None),
+                            dict(id='.change', opts=[], blank=[], content=None, expect={}, enc=None, ast=None),
+                            dict(id='..file', opts=[], blank=[], content=None, expect={}, enc=None, ast=None),
+                            dict(id='...meta', opts=[['length', '3']], blank=[], content=b'{}\n'.hex(), expect=dict(metadata={}), enc='utf-8', ast=None)])
+                        yield dict(kind='frame', file=lf)
+                        yield dict(kind='land', file=lf, at=1, value=str(len(first)), first=first.decode(), line=(pre + hdr).hex())
             # framing of LARGE content (sizes around the usual buffer sizes and around every size harvested from the code
             # under test): exactly `length` bytes, then the next header
             import sizes
@@ -845,6 +868,17 @@ class Truncate(Family):
                 if d:
                     out.append(('C07', 'framing-differs', d))
             return out
+        if c['kind'] == 'land':
+            si, line = c['at'], bytes.fromhex(c['line'])
+            if spec_parse_header(line) is not None:
+                return out          # control: the line IS a header; whether it may follow is another property's business
+            ok = (term[0] == 'parse' and len(records) == si + 1 and records[si].get('text') == c['first'])
+            if not ok:
+                out.append(('C07', 'non-header-line-accepted',
+                            'content declared as %s bytes is followed by the line %r, which is not a header: got %d records '
+                            'then %r (expected %d records, the last with text %r, then a parse error)'
+                            % (c['value'], line, len(records), term[:2], si + 1, c['first'])))
+            return out
         intact = self._intact(c['file'])
         if c['kind'] == 'cut':
             r = classify_c07(intact, records, exhausted=True, tail=data[-4:])
@@ -897,9 +931,12 @@ NAMES6 = ['diffx', 'preamble', 'meta', 'change', 'file', 'diff']
 IDS24 = ['.' * lvl + n for lvl in range(4) for n in NAMES6]
 
 
-def render_id(sid):
+def render_id(sid, body=None):
     """A header (with the minimal valid options and content for its kind) for any of the 24 syntactic ids."""
     name = sid.lstrip('.')
+    if body is not None and name in ('preamble', 'meta', 'diff'):
+        b = body.encode('utf-8')
+        return ('#%s: %slength=%d\n' % (sid, 'format=json, ' if name == 'meta' else '', len(b))).encode() + b
     if name == 'diffx':
         return ('#%s: encoding=utf-8, version=1.0\n' % sid).encode()
     if name == 'preamble':
@@ -914,6 +951,9 @@ def render_id(sid):
 BLANKS = ['\n', '\n\n', '  \n', '\t\n\n', '\r\n']
 
 
+gen_doc_meta = gc.gen_doc_meta
+
+
 def hash_ids(seq):
     import zlib
     return zlib.crc32('|'.join(seq).encode())
@@ -925,6 +965,7 @@ class Order(Family):
             'combinations) up to a bounded length, each rendered with minimal valid options/content; plus headers the '
             'grammar rejects; every sequence again with tolerated blank lines before the last (or every) header; '
             'histories of 2-4 files read one after the other in one process (the verdict on the last one is compared); '
+            'walks rendered with spec-documented metadata and declared counts that agree / disagree with the real ones; '
             'non-trivial = length >= 2; distinct by id sequence, blank-line pattern and history')
 
     def cases(self, tier, rng, prop_id):
@@ -958,6 +999,39 @@ class Order(Family):
             yield dict(kind='walk', ids=seq)
             yield dict(kind='walk-blank', ids=seq,
                        blanks=[''] + [rng.choice(BLANKS) if rng.random() < 0.5 else '' for _ in seq[1:]])
+            # the same walk with realistic content: metadata using the keys the specification documents (statistics with
+            # counts that agree, disagree or are zero, paths, revisions, operations), preambles and diffs that mention
+            # sections: what a section CONTAINS never decides which section may follow
+            bodies = []
+            for sid in seq:
+                nm = sid.lstrip('.')
+                if nm == 'meta':
+                    bodies.append(json.dumps(gen_doc_meta(rng), sort_keys=True) + '\n')
+                elif nm in ('preamble', 'diff'):
+                    bodies.append(rng.choice(['1 file, 2 changes\n', 'files: 0\n', '--- a\n+++ b\n@@ -1 +1 @@\n-x\n+y\n', '{"stats": {"files": 0}}\n',
+                                              'version=1.0, encoding=utf-8\n', 'x\n']))
+                else:
+                    bodies.append(None)
+            yield dict(kind='walk-content', ids=seq, bodies=bodies)
+        for nfiles in (0, 1, 2, 3):
+            for nchanges in (0, 1, 2):
+                # declared counts of every size against 1-3 real changes of 1-3 files, with and without metadata on the later ones
+                for real_c in (1, 2, 3):
+                    for real_f in (1, 2, 3):
+                        st = json.dumps({'stats': {'changes': nchanges, 'files': nfiles, 'insertions': nfiles, 'deletions': 0,
+                                                   'lines changed': nfiles}}, sort_keys=True) + '\n'
+                        for where in ('main', 'first-change', 'every-change', 'file'):
+                            seq, bodies = ['diffx'], [None]
+                            if where == 'main':
+                                seq.append('.meta'); bodies.append(st)
+                            for ci in range(real_c):
+                                seq.append('.change'); bodies.append(None)
+                                if where == 'every-change' or (where == 'first-change' and ci == 0):
+                                    seq.append('..meta'); bodies.append(st)
+                                for fi in range(real_f):
+                                    seq.append('..file'); bodies.append(None)
+                                    seq.append('...meta'); bodies.append(st if where == 'file' and fi == 0 else None)
+                            yield dict(kind='declared-counts', ids=seq, bodies=bodies)
         for h in ['#....meta: length=2\nx\n', '#.Change:\n', '#.change\n', '.change:\n', '#.changes:\n', '# .change:\n']:
             yield dict(kind='bad-header', ids=['diffx'], extra=h)
         # header lines whose total length sits at / around the sizes harvested from the code under test (and one read-ahead
@@ -998,7 +1072,8 @@ class Order(Family):
 
     def _data(self, c):
         blanks = c.get('blanks') or [''] * len(c['ids'])
-        parts = [b.encode() + render_id(s) for b, s in zip(blanks, c['ids'])]
+        bodies = c.get('bodies') or [None] * len(c['ids'])
+        parts = [b.encode() + render_id(s, body) for b, s, body in zip(blanks, c['ids'], bodies)]
         if c.get('pad_last') and parts:
             # the last header line padded with an unknown option to an exact total length (newline included)
             last = parts[-1]
@@ -1041,7 +1116,8 @@ class Order(Family):
         return sl.collapse_exc(line)
 
     def key(self, c):
-        return json.dumps([c['kind'], c.get('history') or c['ids'], c.get('blanks'), c.get('extra'), c.get('pad_last'), c.get('shift_to'), c.get('wrap')])
+        return json.dumps([c['kind'], c.get('history') or c['ids'], c.get('blanks'), c.get('extra'), c.get('pad_last'), c.get('shift_to'), c.get('wrap'),
+                           c.get('bodies')])
 
     def nontrivial(self, c):
         return len(c['ids']) >= 2
@@ -1109,11 +1185,36 @@ def re_key(b):
     return _r.fullmatch(rb'[A-Za-z][A-Za-z0-9_-]*', b) is not None
 
 
+_CONFUSABLES = None
+
+
+def ascii_confusables(rng, n_other):
+    global _CONFUSABLES
+    import sys
+    import unicodedata
+    if _CONFUSABLES is None:
+        ci = _re.compile('[a-z0-9]', _re.I)
+        out, other = [], []
+        for cp in range(128, sys.maxunicode + 1):
+            if 0xd800 <= cp <= 0xdfff:
+                continue
+            ch = chr(cp)
+            forms = [ch.lower(), ch.upper(), ch.casefold(), unicodedata.normalize('NFKC', ch), unicodedata.normalize('NFKD', ch)]
+            if ci.fullmatch(ch) or ch.isdigit() or any(f != ch and f and all(ord(x) < 128 for x in f) for f in forms):
+                out.append(ch)
+            elif ch.isalnum():
+                other.append(ch)
+        _CONFUSABLES = (out, other)
+    out, other = _CONFUSABLES
+    return out + rng.sample(other, min(n_other, len(other)))
+
+
 class HeaderFam(Family):
     name = 'header'
     rule = ('header lines "#.change: <s>" and "#.change: k=v, <s>" for every option string s over a 16-symbol alphabet '
             '(letters, digits, each punctuation character of the grammar, space, tab, #, :, +, a non-ASCII byte) up to '
-            'a bounded length (exhaustive), structural variants of the "#..name:" part, random longer strings; each '
+            'a bounded length (exhaustive), structural variants of the "#..name:" part, random longer strings, every non-ASCII '
+            'character that Unicode case folding / normalisation / digit classes equate with an ASCII one; each '
             'placed after a valid main header; non-trivial = the string contains "="; distinct by line')
 
     PREFIX = b'#diffx: version=1.0\n'
@@ -1191,6 +1292,15 @@ class HeaderFam(Family):
                     yield dict(kind='dup-key', line=hx(b'#.change: a=1, ' + key + b'=' + bad + b', b=2, ' + key + b'=' + good))
         for good in goods:
             yield dict(kind='dup-key', line=hx(b'#.change: k=' + good + b', k=' + good + b', k=7'))
+        # every non-ASCII character that some Unicode-aware operation equates with an ASCII letter or digit (case folding,
+        # case-insensitive matching, compatibility normalisation, decimal digits of other scripts, plus a sample of other
+        # letters), UTF-8 encoded, as a key, inside a key, and as a value: the grammar is about ASCII bytes only
+        for ch in ascii_confusables(rng, 150 if tier == 'quick' else 3000):
+            b = ch.encode('utf-8')
+            yield dict(kind='confusable', line=hx(b'#.change: ' + b + b'=1'))
+            yield dict(kind='confusable', line=hx(b'#.change: a' + b + b'=1'))
+            yield dict(kind='confusable', line=hx(b'#.change: k=' + b))
+            yield dict(kind='confusable', line=hx(b'#.change: k=v' + b + b', x=1'))
 
     def _impl(self, c):
         if '_impl' not in c:
@@ -1362,11 +1472,44 @@ class Chunk(Family):
 MARK = ['utf-16-le', 'utf-32-be', 'latin-1']
 
 
+PRINTABLE = ''.join(chr(i) for i in range(0x20, 0x7f))
+_TEXT_CODECS = None
+
+
+def _can(t, codec):
+    try:
+        return t.encode(codec).decode(codec) == t
+    except Exception:
+        return False
+
+
+def catalogue_text_codecs():
+    """Text codecs of the running interpreter that encode piecewise (encode(a + b) = encode(a) + encode(b) up to a
+    signature) -- punycode and idna do not, and are not content encodings."""
+    global _TEXT_CODECS
+    if _TEXT_CODECS is None:
+        import codecs
+        import encodings.aliases
+        out = []
+        for n in sorted(set(encodings.aliases.aliases.values()) | {'utf_8_sig', 'unicode_escape'}):
+            try:
+                info = codecs.lookup(n)
+            except LookupError:
+                continue
+            if not getattr(info, '_is_text_encoding', True) or n in ('punycode', 'idna', 'raw_unicode_escape'):
+                continue
+            if _can('ab\n', n) and _can('x', n):
+                out.append(n)
+        _TEXT_CODECS = out
+    return _TEXT_CODECS
+
+
 class Nesting(Family):
     name = 'nesting'
     rule = ('every container history main -> (change|file)* up to a bounded number of transitions that the hierarchy '
             'allows, each container declaring no encoding or one of 3 marker codecs, each followed by a text section '
-            '(with and without its own encoding) whose text encodes differently under every codec involved; '
+            '(with and without its own encoding) whose text encodes differently under every codec involved; plus every text '
+            'codec of the interpreter catalogue declared on a change / file / section with an all-printable-ASCII text; '
             'non-trivial = at least one file -> change or sibling transition after a declaration; distinct by history')
 
     def cases(self, tier, rng, prop_id):
@@ -1409,6 +1552,22 @@ class Nesting(Family):
                             calls2 = [[c[0], (sl.S(alt) if c[0] == 'write_preamble' else c[1])] + c[2:] for c in calls]
                             yield dict(kind='wellformed', main='latin-1', calls=calls2, hist=''.join(seq), bomlike=True)
 
+        # every text codec of the running interpreter's catalogue (not only the modelled ones) declared on a change and
+        # inherited by a preamble and metadata below it, with a text made of every printable ASCII character (escape
+        # characters of modal codecs included) that the codec can encode; oracle only where the model has no such codec
+        for codec in catalogue_text_codecs():
+            probe = ''.join(ch for ch in PRINTABLE if _can(ch, codec)) + '\nsecond line ~{ +AGE- \\u00e9 ~} A\n'
+            probe = ''.join(ch for ch in probe if _can(ch, codec))
+            m1 = {'t': 'caf\xe9 ~ \\ + x', 'u': '~{'}
+            for where in ('change', 'file', 'own'):
+                d_c, d_f, own = (sl.S(codec) if where == 'change' else None, sl.S(codec) if where == 'file' else None,
+                                 sl.S(codec) if where == 'own' else None)
+                calls = [['new_change', d_c], ['write_preamble', sl.S(probe), own, 'omitted', None, None],
+                         ['write_meta', {'d': m1}, own, 'omitted'], ['new_file', d_f], ['write_meta', {'d': m1}, own, 'omitted'],
+                         ['new_change', None], ['write_preamble', sl.S(probe), None, {'i': 2}, None, None], ['new_file', None],
+                         ['write_meta', {'d': {'k': 1}}, None, 'omitted']]
+                yield dict(kind='wellformed', main='utf-8', calls=calls, hist='cfc', catalogue=codec)
+
     @staticmethod
     def _last_container(calls):
         for c in reversed(calls):
@@ -1420,7 +1579,13 @@ class Nesting(Family):
 
     # same implementation/observation/oracle as the stream family
     _impl = Stream._impl
-    model_line = Stream.model_line
+
+    def model_line(self, c):
+        import codecs
+        if c.get('catalogue') and codecs.lookup(c['catalogue']).name not in MODELLED_CANON:
+            return None
+        return Stream.model_line(self, c)
+
     impl_obs = Stream.impl_obs
     normalize_model = Stream.normalize_model
     oracle = Stream.oracle
